@@ -90,12 +90,18 @@ def flags_for(insecure: bool, plug: str = 'optout') -> Any:
     return make_flags(args, plugins=plugins, cache_key='c11:%s:%s:%s' % (insecure, _P['dir'], plug), threaded=True)
 
 
-def origin_leaf(situation: str, host: str, also: Tuple[str, ...] = ()) -> Tuple[str, str]:
-    key = '%s|%s|%s' % (situation, host, also)
+# what the origin's (perfectly valid) certificate says about its owner; the proxy copies these fields into the certificate it issues
+SUBJECTS = {'plain': ('origin', False), 'slash': ('AC/DC Ltd', False), 'comma': ('Foo, Bar', False), 'unicode': ('Bücher GmbH & Söhne', True),
+            'empty': (None, False), 'backslash': ('back\\slash', False), 'equals': ('a=b', False), 'quote': ('say "hi"', False)}
+
+
+def origin_leaf(situation: str, host: str, also: Tuple[str, ...] = (), subject: str = 'plain') -> Tuple[str, str]:
+    key = '%s|%s|%s|%s' % (situation, host, also, subject)
     if key not in _P['leafs']:
         n = 'leaf%d' % len(_P['leafs'])
         if situation == 'good':
-            _P['leafs'][key] = pki.make_leaf(_P['dir'], n, [host] + list(also), _P['oca'])
+            org, utf8 = SUBJECTS[subject]
+            _P['leafs'][key] = pki.make_leaf(_P['dir'], n, [host] + list(also), _P['oca'], org=org, utf8=utf8)
         elif situation == 'self-signed':
             _P['leafs'][key] = pki.make_leaf(_P['dir'], n, [host], None)
         elif situation == 'untrusted-ca':
@@ -439,15 +445,114 @@ def run_live(case: Dict[str, Any]) -> Dict[str, Any]:
             'obs': obs, 'sample': {'case': case}}
 
 
+def _verified_get(flags: Any, host: str, port: int, timeout: float = 20.0) -> str:
+    """CONNECT + verifying handshake + one GET through the thread-per-connection path: 'ok' | 'no-connect-reply' | other."""
+    a = None
+    try:
+        a, work, th, head = connect_through_proxy(flags, host, port)
+        if not head.startswith(b'HTTP/1.1 200'):
+            return 'connect-refused'
+        cctx = ssl.SSLContext(ssl.PROTOCOL_TLS_CLIENT)
+        cctx.load_verify_locations(_P['ica'][1])
+        a.settimeout(timeout)
+        t = cctx.wrap_socket(a, server_hostname=host)
+        t.sendall(b'GET /cl HTTP/1.1\r\nHost: %s\r\n\r\n' % host.encode())
+        rx = b''
+        while b'\r\n\r\n' not in rx:
+            d = t.recv(4096)
+            if not d:
+                break
+            rx += d
+        t.close()
+        return 'ok' if rx.startswith(b'HTTP/1.1 200') else 'no-response'
+    except socket.timeout:
+        return 'no-connect-reply'
+    except (ssl.SSLError, OSError) as e:
+        return 'failed:%s' % type(e).__name__
+    finally:
+        if a is not None:
+            try:
+                a.close()
+            except Exception:
+                pass
+
+
+def run_gen_failure(case: Dict[str, Any]) -> Dict[str, Any]:
+    """Cold cache, and certificate generation fails once (the external openssl run exits non-zero: full disk, time-out, ...).
+    That connection is lost; the next CONNECT to a host never seen before still gets its certificate."""
+    rng = random.Random('c11g:%s:%s' % (case['seed'], case['i']))
+    viol: List[Dict[str, Any]] = []
+    obs: Dict[str, int] = {}
+    inconclusive = None
+    shim.install()
+    shim.S.reset()
+    shim.S.all_threads_active = True
+    wrapper = os.path.join(_P['dir'], 'openssl-wrapper.sh')
+    if not os.path.exists(wrapper):
+        with open(wrapper, 'w') as f:
+            f.write('#!/bin/sh\n# stand-in for the external tool failing once\nif [ -f "$0.fail" ]; then rm -f "$0.fail"; exit 1; fi\nexec openssl "$@"\n')
+        os.chmod(wrapper, 0o755)
+    ip = '127.%d.%d.%d' % (rng.randint(1, 250), rng.randint(0, 250), rng.randint(2, 250))
+    hosts = ['genf-%d-%d-%s.test' % (case['i'], rng.randint(0, 10 ** 6), k) for k in 'wab']
+    resolver.reset({h: ip for h in hosts})
+    OPTOUT_HOSTS.clear()
+    origin = None
+    try:
+        body = b'ok'
+        origin = TlsOrigin(ip, pki.make_leaf(_P['dir'], 'genf%d' % case['i'], hosts, _P['oca']),
+                           {b'/cl': b'HTTP/1.1 200 OK\r\nContent-Length: 2\r\n\r\nok'})
+        origin.start()
+        args = ['--ca-key-file', _P['ica'][0], '--ca-cert-file', _P['ica'][1], '--ca-signing-key-file', _P['sign_key'],
+                '--ca-cert-dir', _P['certs'], '--ca-file', _P['oca'][1], '--openssl', wrapper]
+        flags = make_flags(args, plugins=[OptOut], cache_key='c11g:%s' % _P['dir'], threaded=True)
+        w, a_, b_ = hosts
+        r1 = _verified_get(flags, w, origin.port)
+        if r1 != 'ok':
+            inconclusive = 'warm-up-failed:%s' % r1
+        else:
+            open(wrapper + '.fail', 'w').close()
+            r2 = _verified_get(flags, a_, origin.port, timeout=8.0)      # generation fails for this one: whatever happens to it
+            armed_consumed = not os.path.exists(wrapper + '.fail')
+            r3 = _verified_get(flags, b_, origin.port)
+            obs['generation_failures_injected'] = 1 if armed_consumed else 0
+            if not armed_consumed:
+                inconclusive = 'failure-not-consumed'
+                os.unlink(wrapper + '.fail')
+            elif r3 == 'ok':
+                obs['cold_connect_after_failed_generation_ok'] = 1
+            else:
+                r4 = _verified_get(flags, w, origin.port)      # the warm host: is the proxy (and the machine) responsive at all?
+                if r4 == 'ok' or r3 not in ('no-connect-reply',):
+                    viol.append({'key': 'generation-failure|cold-cache-connect-not-served-afterwards:%s' % r3,
+                                 'detail': {'failed_connection': r2, 'next_cold_connect': r3, 'warm_host_meanwhile': r4}})
+                else:
+                    inconclusive = 'nothing-answers:%s/%s' % (r3, r4)
+    except (socket.timeout, TimeoutError, OSError) as e:
+        inconclusive = 'harness: %r' % e
+    finally:
+        if origin is not None:
+            origin.close()
+        shim.S.all_threads_active = False
+        try:
+            os.unlink(wrapper + '.fail')
+        except OSError:
+            pass
+    obs['gen_failure_cases'] = 1
+    return {'viol': viol, 'nontrivial': True, 'inconclusive': inconclusive, 'sig': 'genfail/%d' % case['i'], 'obs': obs, 'sample': {'case': case}}
+
+
 def run_case(case: Dict[str, Any]) -> Dict[str, Any]:
     if case.get('kind') == 'live':
         return run_live(case)
+    if case.get('kind') == 'gen-failure':
+        return run_gen_failure(case)
     rng = random.Random('c11:%s:%s' % (case['seed'], case['i']))
     situation, insecure, optout, hostkind = case['situation'], case['insecure'], case['optout'], case['host']
     viol: List[Dict[str, Any]] = []
     obs: Dict[str, int] = {}
     inconclusive = None
-    feat = '%s|%s|%s|%s' % (hostkind, situation, 'insecure' if insecure else 'verify', 'optout' if optout else 'intercept')
+    feat = '%s|%s%s|%s|%s' % (hostkind, situation, ('+subject-' + case['subject']) if situation == 'good' and case.get('subject', 'plain') != 'plain' else '',
+                             'insecure' if insecure else 'verify', 'optout' if optout else 'intercept')
     shim.install()
     shim.S.reset()
     shim.S.all_threads_active = True
@@ -482,7 +587,8 @@ def run_case(case: Dict[str, Any]) -> Dict[str, Any]:
         with lock_ctx as got_lock:
             if not got_lock:
                 return {'viol': [], 'inconclusive': 'v6-lock-timeout', 'obs': {}, 'sig': feat, 'nontrivial': False}
-            origin = TlsOrigin(ip, origin_leaf(situation, host, (alt,) if alt else ()), responses)
+            subject = case.get('subject', 'plain') if situation == 'good' else 'plain'
+            origin = TlsOrigin(ip, origin_leaf(situation, host, (alt,) if alt else (), subject), responses)
             origin.start()
             flags = flags_for(insecure, case.get('plugins', 'optout'))
             first_host = host
@@ -580,7 +686,7 @@ def run_case(case: Dict[str, Any]) -> Dict[str, Any]:
                 info = pki.cert_info(der)
                 detail['presented_sans'] = info['sans']
                 if optout:
-                    want = ssl.PEM_cert_to_DER_cert(open(origin_leaf(situation, first_host, (alt,) if alt else ())[1]).read())
+                    want = ssl.PEM_cert_to_DER_cert(open(origin_leaf(situation, first_host, (alt,) if alt else (), subject)[1]).read())
                     if der != want:
                         bad('opted-out-connection-not-presented-the-origins-own-certificate')
                     else:
@@ -669,6 +775,8 @@ def run_case(case: Dict[str, Any]) -> Dict[str, Any]:
         for th in threads:
             th.join(10)
         shim.S.all_threads_active = False
+    if situation == 'good' and not optout and not viol:
+        obs['subject:' + case.get('subject', 'plain')] = 1
     obs.update({'plugins:' + case.get('plugins', 'optout'): 1, 'situation:' + situation: 1, 'host:' + hostkind: 1, 'insecure:%s' % insecure: 1, 'optout:%s' % optout: 1})
     seen = set()
     uniq = []
@@ -693,6 +801,9 @@ def cases(tier: str, seed: int):
                               [(m, a, wk, cl) for m in ('local', 'remote', 'threaded') for (a, wk) in ((1, 1), (2, 2), (4, 4)) for cl in (4, 12)]):
         i += 1
         yield {'seed': seed, 'i': i, 'kind': 'live', 'mode': mode, 'acceptors': a, 'workers': wk, 'clients': cl, 'hosts': 3 if tier == 'quick' else 6}
+    for k in range(4 if tier == 'quick' else 40):
+        i += 1
+        yield {'seed': seed, 'i': i, 'kind': 'gen-failure'}
     for rep in range(reps):
         for hostkind in ['name', 'punycode', 'ipv4', 'ipv6']:
             for situation in SITUATIONS:
@@ -705,7 +816,7 @@ def cases(tier: str, seed: int):
                                'requests': rng.choice([1, 2, 3]), 'resp_size': rng.choice([0, 50, 3000, 300000]) if situation == 'good' or insecure else 50,
                                'req_body': rng.choice([0, 20, 5000]), 'cuts': rng.choice([0, 1, 5]), 'client_pace': rng.choice(['eager', 'slow']),
                                'connections': rng.choice([1, 2, 2]) if situation == 'good' else rng.choice([2, 3]),
-                               'record_split': rng.random() < 0.4, 'plugins': ['optout', 'optout+bystander', 'bystander+optout'][i % 3], 'warm_name': hostkind == 'name' and situation == 'good' and rng.random() < 0.3,
+                               'record_split': rng.random() < 0.4, 'subject': sorted(SUBJECTS)[i % len(SUBJECTS)] if rep % 2 == 1 or tier != 'quick' else 'plain', 'plugins': ['optout', 'optout+bystander', 'bystander+optout'][i % 3], 'warm_name': hostkind == 'name' and situation == 'good' and rng.random() < 0.3,
                                'shared_cert': hostkind == 'name' and situation == 'good'}
 
 
@@ -715,7 +826,8 @@ def floors(tier: str) -> Dict[str, int]:
     return {'live_batches': 3, 'live_verified_handshakes': 30, 'verified_handshakes': 60, 'refusals_checked': 45, 'optout_tunnels_checked': 30, 'responses_checked': 120,
             'origin_requests_checked': 40, 'warm_cache_connections': 10, 'verified:name': 3, 'verified:punycode': 3,
             'shared_certificate_second_host_checked': 2, 'situation:self-signed': 5, 'situation:wrong-name': 5, 'situation:expired': 5, 'situation:untrusted-ca': 5,
-            'repeat_refusals_checked': 20, 'split_tls_records_sent': 20, 'plugins:optout+bystander': 30, 'plugins:bystander+optout': 30}
+            'repeat_refusals_checked': 20, 'split_tls_records_sent': 20, 'plugins:optout+bystander': 30, 'plugins:bystander+optout': 30,
+            'cold_connect_after_failed_generation_ok': 3}
 
 
 if __name__ == '__main__':
